@@ -179,6 +179,12 @@ def cases(tier, seed):
                 continue
             for d_in, n1_, n2_ in ((1, 6, 4), (2, 4, 4), (3, 3, 2), (2, 4, 1), (1, 6, 6)):
                 yield {"kind": "relations", "kernel": name, "pbatch": [], "xbatch": [], "n1": n1_, "n2": n2_, "d_in": d_in, "seed": rnd.randrange(10**6)}
+    # evaluation mode, autograd off, one evaluation, then the parameters move in place (an optimiser step / a setter, no train()):
+    # every access path answers with the CURRENT parameters (anchor: a freshly built kernel loaded with the same state)
+    for name in KERNELS:
+        pb = [2] if name not in GRADLIKE + ("lcm",) and rnd.random() < 0.5 else []
+        n1, n2 = (3, 2) if _nout(name) > 1 else (5, 4)
+        yield {"kind": "relations", "kernel": name, "pbatch": pb, "xbatch": pb, "n1": n1, "n2": n2, "moved_in_eval": True, "seed": rnd.randrange(10**6)}
     yield from _chain_cases(tier, rnd)
 
 
@@ -271,10 +277,22 @@ def _run_case(case, ctx):
     util.randomize(kern, g, 0.5)
     x1, x2 = _data(case, g)
     b1, b2 = x1.clone(), x2.clone()
+    fresh = None
+    if case.get("moved_in_eval"):
+        kern.eval()
+        with torch.no_grad():
+            kern(x1, x2).to_dense()
+            kern(x1, x2).diagonal(dim1=-2, dim2=-1) if x1.shape == x2.shape else None
+            for n_, p_ in kern.named_parameters():
+                if "angle" not in n_:
+                    p_.add_(0.3 * util.randn(g, *p_.shape))
+        fresh = _build(name, case["pbatch"])
+        fresh.load_state_dict(kern.state_dict())
+        fresh.eval()
     try:
         with torch.no_grad():
             with S.lazily_evaluate_kernels(False):
-                D = kern(x1, x2).to_dense()
+                D = (fresh if fresh is not None else kern)(x1, x2).to_dense()
             if case["kind"] == "chain":
                 return _chain(case, ctx, kern, x1, x2, D, g)
             if case["kind"] == "index":
